@@ -178,6 +178,14 @@ class Report:
         n_obl = len(proved)
         n_dis = sum(1 for o in proved if o["status"] == "discharged")
         # known findings
+        known_ids = set(o["id"] for o in self.failed() if self.known.match(self.pid, o["id"]))
+        if known_ids:
+            # obligations that fail exactly as a recorded finding are reported separately (coverage.known_findings_matched);
+            # they are neither counted as discharged nor hidden
+            proved = [o for o in proved if o["id"] not in known_ids]
+            n_obl = len(proved)
+            n_dis = sum(1 for o in proved if o["status"] == "discharged")
+            self.extra["obligations_failing_as_known_findings"] = len(known_ids)
         unknown_fail = []
         for o in self.failed():
             k = self.known.match(self.pid, o["id"])
